@@ -420,6 +420,28 @@ fn ctx_days(ctx: &str) -> Vec<i64> {
 
 /// a day for a given context: half of the time next to one of its holidays (before, on, after,
 /// a few days around: this is where `PH`/`SH` selectors and their offsets change state)
+/// a day for a given context and expression: a third of the time a boundary day of the
+/// expression's own selectors (see bdays.rs), else as `gen_day_ctx`
+pub fn gen_day_for(rng: &mut Rng, ctx: &str, expr: &str) -> i64 {
+    if rng.chance(1, 3) {
+        if let Some(d) = catch(|| crate::bdays::pick(rng, expr, &ctx_days(ctx))).ok().flatten() {
+            return d;
+        }
+    }
+    gen_day_ctx(rng, ctx)
+}
+
+pub fn gen_instant_for(rng: &mut Rng, ctx: &str, expr: &str) -> String {
+    let d = gen_day_for(rng, ctx, expr);
+    let ns: u64 = match rng.below(6) {
+        0 => 0,
+        1 => 86_399_999_999_999,
+        2 => rng.below(86_400) * 1_000_000_000 + rng.below(1_000_000_000),
+        _ => rng.below(1440) * 60_000_000_000,
+    };
+    format!("{d}:{ns}")
+}
+
 pub fn gen_day_ctx(rng: &mut Rng, ctx: &str) -> i64 {
     let hs = ctx_days(ctx);
     if !hs.is_empty() && rng.chance(1, 2) {
@@ -580,9 +602,9 @@ pub fn gen_for(suite: &str, tier: &str, rng: &mut Rng, emit: &mut dyn FnMut(Stri
                 let e = gen_expr::expr(rng, &cfg);
                 let ee = enc(&e);
                 let ctx = gen_ctx(rng, &e, false);
-                let d0 = gen_day_ctx(rng, &ctx);
+                let d0 = gen_day_for(rng, &ctx, &e);
                 for k in 0..scale(6, 12) as i64 {
-                    let d = if k < 2 { d0 + k } else { gen_day_ctx(rng, &ctx) };
+                    let d = if k < 2 { d0 + k } else { gen_day_for(rng, &ctx, &e) };
                     emit(format!("c01.sched {d} {ctx} {ee}"));
                 }
                 if e.contains("sun") || e.contains("dawn") || e.contains("dusk") {
@@ -639,7 +661,7 @@ pub fn gen_for(suite: &str, tier: &str, rng: &mut Rng, emit: &mut dyn FnMut(Stri
             for _ in 0..scale(3_000, 60_000) {
                 let e = if rng.chance(1, 4) { gen_expr::hint_template(rng) } else { gen_expr::expr(rng, &cfg) };
                 let ctx = gen_ctx(rng, &e, false);
-                let t = gen_instant_ctx(rng, &ctx);
+                let t = gen_instant_for(rng, &ctx, &e);
                 let len_ns: i64 = match rng.below(10) {
                     0 => 60_000_000_000,
                     1 => rng.range(1, 86_400) * 1_000_000_000,
@@ -665,7 +687,7 @@ pub fn gen_for(suite: &str, tier: &str, rng: &mut Rng, emit: &mut dyn FnMut(Stri
                 };
                 let ee = enc(&e);
                 let ctx = gen_ctx(rng, &e, false);
-                let t = gen_instant_ctx(rng, &ctx);
+                let t = gen_instant_for(rng, &ctx, &e);
                 emit(format!("c03.state {t} {ctx} {ee}"));
                 let h = *rng.pick(&[1, 7, 40, 400, 800]);
                 let w = format!("c03.nextw {t} {h} {ctx} {ee}");
@@ -730,7 +752,7 @@ pub fn gen_for(suite: &str, tier: &str, rng: &mut Rng, emit: &mut dyn FnMut(Stri
                 let e = if rng.chance(1, 4) { gen_expr::hint_template(rng) } else { gen_expr::expr(rng, &cfg) };
                 let ee = enc(&e);
                 let ctx = gen_ctx(rng, &e, false);
-                let t = gen_instant_ctx(rng, &ctx);
+                let t = gen_instant_for(rng, &ctx, &e);
                 // find the exact answer on a window, then place bounds around it
                 let probe = format!("c03.nextw {t} 800 {ctx} {ee}");
                 let res = result_of(&probe).unwrap_or_default();
@@ -768,11 +790,11 @@ pub fn gen_for(suite: &str, tier: &str, rng: &mut Rng, emit: &mut dyn FnMut(Stri
                 }
                 let ee = enc(&e);
                 let ctx = gen_ctx(rng, &e, false);
-                let d0 = gen_day_ctx(rng, &ctx);
+                let d0 = gen_day_for(rng, &ctx, &e);
                 for k in 0..4 {
-                    emit(format!("c17.sched {} {ctx} {ee}", if k < 2 { d0 + k } else { gen_day_ctx(rng, &ctx) }));
+                    emit(format!("c17.sched {} {ctx} {ee}", if k < 2 { d0 + k } else { gen_day_for(rng, &ctx, &e) }));
                 }
-                let t = gen_instant_ctx(rng, &ctx);
+                let t = gen_instant_for(rng, &ctx, &e);
                 if let Some(to) = add_ns(&t, rng.range(1, 20) * 86_400_000_000_000) {
                     emit(format!("c17.iter {t} {to} {ctx} {ee}"));
                 }
